@@ -295,4 +295,84 @@ example : (cutStrCore exLine (exOpt true (some [36, 48, 120])) [10]).1 =
     Run.ok [98, 36, 48, 120, 36, 48, 120, 99, 10] := by eval_cut
 end
 
+/-! ## `SliceStable`: an executable test, and what it says about the Lean matcher
+
+`SliceStable` is a hypothesis about the real engine; it is not proved for anything.  It can be
+*tested*: `sliceStableB` decides it for one matcher and one record.  The Lean matcher passes on
+every record tried (below: all records up to 5 bytes over a 3-letter alphabet, for `[-,]` and for
+alternations whose branches are prefixes of one another, `ab|a`, `a|ab`, `aa|a`); a matcher
+with an anchor (`^a`) fails, as it must. -/
+
+/-- decides `SliceStable bag line` -/
+def sliceStableB (bag : RegexBag) (line : Bytes) : Bool :=
+  (0 :: (bag.normal line ++ bag.greedy line).map (·.2)).all fun a =>
+    (line.length :: (bag.normal line ++ bag.greedy line).map (·.1)).all fun b =>
+      decide (a ≤ b → bag.normal (slice line a b) = insideShift (bag.normal line) a b)
+
+theorem sliceStableB_sound (bag : RegexBag) (line : Bytes) (h : sliceStableB bag line = true) :
+    SliceStable bag line := by
+  intro a b ha hb hab
+  have ha' : a ∈ 0 :: (bag.normal line ++ bag.greedy line).map (·.2) := by
+    rcases ha with rfl | ⟨m, hm, rfl⟩
+    · exact List.mem_cons_self ..
+    · exact List.mem_cons_of_mem _ (List.mem_map_of_mem hm)
+  have hb' : b ∈ line.length :: (bag.normal line ++ bag.greedy line).map (·.1) := by
+    rcases hb with rfl | ⟨m, hm, rfl⟩
+    · exact List.mem_cons_self ..
+    · exact List.mem_cons_of_mem _ (List.mem_map_of_mem hm)
+  have h1 := List.all_eq_true.mp h a ha'
+  have h2 := List.all_eq_true.mp h1 b hb'
+  exact (of_decide_eq_true h2) hab
+
+/-- all byte strings of length `≤ n` over an alphabet -/
+def allLines (alphabet : List UInt8) : Nat → List Bytes
+  | 0 => [[]]
+  | n + 1 => allLines alphabet n ++
+      ((allLines alphabet n).filter (·.length == n)).flatMap fun l => alphabet.map fun c => l ++ [c]
+
+def bagOfString (re : String) : RegexBag :=
+  match Re.parse re.toList with
+  | some r => Re.bag r
+  | none => Re.bag .never
+
+#guard (allLines [97, 45, 44] 5).all (sliceStableB (bagOfString "[-,]"))
+#guard (allLines [97, 98, 99] 5).all (sliceStableB (bagOfString "ab|a"))
+#guard (allLines [97, 98, 99] 5).all (sliceStableB (bagOfString "a|ab"))
+#guard (allLines [97, 98] 6).all (sliceStableB (bagOfString "aa|a"))
+#guard (allLines [97, 98, 99] 5).all (sliceStableB (bagOfString "a(b|bc)|c"))
+
+/-- a matcher like `^a` (context-sensitive) is not slice-stable: on `aa` the slice after the first
+    match starts with an `a` again -/
+def anchoredBag : RegexBag :=
+  { normal := fun l => if l.head? = some 97 then [(0, 1)] else [],
+    greedy := fun l => if l.head? = some 97 then [(0, 1)] else [] }
+
+#guard !sliceStableB anchoredBag [97, 97]
+
+/-! ## the specification against the engine, by exhaustive evaluation
+
+Also over the parts not proved above (`-g -r`, `--json`): every record up to 3 bytes over
+`{a, -, ,}`, two bounds lists, every combination of `-g -p -j -m -s`, `-r '$0'` or none, the four
+`-t`, with and without a generic fallback: `cut_str` = `specRecordRe`. -/
+
+def exhaustiveMismatches (bag : RegexBag) (alphabet : List UInt8) (n : Nat) (json : Bool) : Nat :=
+  let bools := [false, true]
+  let boundsA : List BoF := [.bound { l := .some 2, r := .some 3 }, .filler [58],
+    .bound { l := .some (-1), r := .cont, isLast := true }]
+  let boundsB : List BoF := [.bound { l := .some 1, r := .cont, isLast := true }]
+  ((allLines alphabet n).flatMap fun line =>
+    [boundsA, boundsB].flatMap fun bs => bools.flatMap fun g => bools.flatMap fun p =>
+    bools.flatMap fun j => bools.flatMap fun m => bools.flatMap fun s =>
+    [none, some [36, 48]].flatMap fun r =>
+    [none, some TrimKind.left, some .right, some .both].flatMap fun t =>
+    [none, some [63]].flatMap fun fb =>
+      let o : Opt :=
+        { delimiter := [], bounds := ⟨bs, .cont⟩, greedyDelimiter := g, compressDelimiter := p,
+          join := j, json := json, complement := m, onlyDelimited := s, replaceDelimiter := r,
+          trim := t, fallbackOob := fb, regexBag := some bag }
+      if (cutStrCore line o [10]).1 == specRecordRe (cfgOf o) bag line then [] else [line]).length
+
+#guard exhaustiveMismatches (Re.bag reDashComma) [97, 45, 44] 3 false == 0
+#guard exhaustiveMismatches (Re.bag reDashComma) [97, 45, 44] 2 true == 0
+
 end Tuc
